@@ -522,14 +522,14 @@ _RM = {}
 
 
 def READ_MESSAGE_DROPS_DISCARD():
-    """Does Protocol.read_message of the tree under check turn an UPDATE carrying INTERNAL_DISCARD into a NOP?
+    """Does Protocol.read_message of the tree under check turn an UPDATE carrying INTERNAL_DISCARD into a placeholder (_NOP / _IGNORED) instead of returning it?
     (read from the source text of the method: the harness does not open sockets for this property)"""
     if 'v' not in _RM:
         import inspect
         from exabgp.reactor.protocol import Protocol
 
         src = inspect.getsource(Protocol.read_message)
-        _RM['v'] = bool(re.search(r'INTERNAL_DISCARD in message\.data\.attributes:\s*\n\s*return _NOP', src))
+        _RM['v'] = bool(re.search(r'INTERNAL_DISCARD in message\.data\.attributes:\s*\n\s*return _[A-Z]+', src))
     return _RM['v']
 
 
@@ -1161,6 +1161,20 @@ def shrink(c, sig, case):
 
     if not fails(desc):
         return case
+    # whole sections first, then single routes, then attributes
+    for sect, code in (('mp_reach', 14), ('mp_unreach', 15)):
+        if desc[sect] is not None:
+            cand = dict(desc, attrs=[a for a in desc['attrs'] if a['code'] != code])
+            cand[sect] = None
+            if (cand['nlri'] or cand['withdrawn'] or cand['mp_reach'] or cand['mp_unreach']) and fails(cand):
+                desc = cand
+    for sect in ('withdrawn', 'nlri'):
+        while len(desc[sect]) > (0 if (desc['mp_reach'] or desc['mp_unreach'] or desc['nlri' if sect == 'withdrawn' else 'withdrawn']) else 1):
+            cand = dict(desc)
+            cand[sect] = desc[sect][1:]
+            if not fails(cand):
+                break
+            desc = cand
     changed = True
     while changed:
         changed = False
